@@ -12,7 +12,9 @@
 From BT Require Import Base.Util Base.Float Generated.Consts Model.RTree Model.BBIFile Model.BigWigWrite Model.BBIRead
   Proofs.RTreeAbs Proofs.RTreeBuild Proofs.RTreeCodec Proofs.RTreeLayout
   Proofs.BigWigQuery Proofs.ZoomLoop Proofs.ZoomInv Proofs.ZoomThms Proofs.ZoomBwLevels Proofs.ZoomSections
-  Proofs.ZoomQuery Proofs.ZoomOld.
+  Proofs.ZoomQuery Proofs.ZoomOld Proofs.ZoomExact Proofs.ZoomSorted
+  Proofs.BigWigFile Proofs.BigWigFileRoundTrip Proofs.BigWigFileThms Proofs.ZoomFile.
+From Coq Require Import Sorting.Sorted.
 Local Open Scope N_scope.
 
 (* the tiling loop of process_val_zoom, run with the fuel the model gives it, always returns a
@@ -67,6 +69,18 @@ Theorem C07_stats : forall fp ips size chrom len vals st, 1 <= size -> wf_vals l
 Proof. exact zoom_stats. Qed.
 Print Assumptions C07_stats.
 
+(* the same in exact arithmetic, read as rational numbers ([qval (FFin m e)] = m * 2^e, Proofs/ZoomExact.v):
+   with finite stored values and the non-rounding mode [exact], a record's sum is the sum over the
+   stored values meeting it of (overlap length x value), its sum of squares the sum of
+   (overlap length x value x value), its min / max are values of contributing stored values that are
+   <= / >= every contributing value.  ([exact_stats], [qsum], [qlen]: Proofs/ZoomExact.v.) *)
+Theorem C07_stats_exact : forall ips size chrom len vals st, 1 <= size -> wf_vals len vals ->
+  Forall (fun v => finite (v_val v)) vals ->
+  zoom_chrom exact ips size chrom vals zstate0 = Ok st ->
+  Forall (fun r => exact_stats r (contribs (z_start r) (z_end r) vals)) (concat (zs_out st)).
+Proof. exact zoom_stats_exact. Qed.
+Print Assumptions C07_stats_exact.
+
 Theorem C07_contributions : forall s e vals p, In p (contribs s e vals) <->
   exists v, In v vals /\ p = (N.max (v_start v) s, N.min (v_end v) e, v_val v) /\ N.max (v_start v) s < N.min (v_end v) e.
 Proof. exact contribs_spec. Qed.
@@ -106,6 +120,28 @@ Theorem C07_levels_increasing_two_pass : forall fp o outs sum data_size pos zoom
 Proof. exact levels_increasing_two_pass. Qed.
 Print Assumptions C07_levels_increasing_two_pass.
 
+(* ... and in the WRITTEN FILE (with C01's description of the file regions): the zoom directory that
+   read_info reads back from the bytes returned by bw_write / bw_write_multipass is strictly
+   increasing, all >= 1, at most MAX_ZOOM_LEVELS long (single pass: and lists only sizes of the
+   normalised size list).  opts_ok / input_ok are C01's hypotheses (2 <= block_size <= 65535,
+   1 <= items_per_slot <= 65535, one run per chromosome, names without NUL, u32 lengths and patterns);
+   the resolutions must fit the directory's u32 field. *)
+Theorem C07_file_levels_increasing : forall fp o sizes inp bs,
+  opts_ok o -> input_ok sizes inp -> Nlen bs < U64 ->
+  Forall (fun z => z < U32) (zoom_sizes_single o) ->
+  bw_write fp o sizes inp = Ok bs ->
+  exists i, read_info bs = Ok i /\ inc_from 0 (map zh_res (i_zooms i)) /\ Nlen (i_zooms i) <= MAX_ZOOM_LEVELS
+            /\ incl (map zh_res (i_zooms i)) (zoom_sizes_single o).
+Proof. exact file_levels_single. Qed.
+Print Assumptions C07_file_levels_increasing.
+
+Theorem C07_file_levels_increasing_two_pass : forall fp o sizes inp bs,
+  opts_ok o -> input_ok sizes inp -> Nlen bs < U64 -> manual_u32 o ->
+  bw_write_multipass fp o sizes inp = Ok bs ->
+  exists i, read_info bs = Ok i /\ inc_from 0 (map zh_res (i_zooms i)) /\ Nlen (i_zooms i) <= MAX_ZOOM_LEVELS.
+Proof. exact file_levels_two_pass. Qed.
+Print Assumptions C07_file_levels_increasing_two_pass.
+
 (* zoom range query, list level: the sections of one chromosome are well-formed sections
    ([sec_ok]: one chromosome, first record starts first, last ends last), and over any list of such
    sections (all chromosomes of a level) reading only the sections that pass the index test
@@ -143,6 +179,28 @@ Theorem C07_zoom_query : forall fp (b ips dpos ipos : N) (rsecs : list (list zre
 Proof. exact zoom_query_complete. Qed.
 Print Assumptions C07_zoom_query.
 
+(* the hypothesis `sorted_starts` of C07_zoom_query holds for what the writer lays out: the sections
+   of one chromosome are sorted by start; a level made of the section lists of several chromosomes
+   whose ids increase in file order, each with tiling-ordered records ([ordered], which
+   C07_chrom_ordered gives for every chromosome), is sorted by (chromosome, start) *)
+Theorem C07_sections_sorted : forall fp ips size chrom len vals sds pos, 1 <= size -> wf_vals len vals ->
+  zoom_sections fp ips size chrom vals = Ok sds -> sorted_starts (map sect_span (place pos sds)).
+Proof. exact zoom_sections_sorted. Qed.
+Print Assumptions C07_sections_sorted.
+
+Theorem C07_chrom_ordered : forall fp ips size chrom len vals st, 1 <= size -> wf_vals len vals ->
+  zoom_chrom fp ips size chrom vals zstate0 = Ok st -> ordered size chrom 0 (concat (zs_out st)).
+Proof. exact zoom_chrom_ordered. Qed.
+Print Assumptions C07_chrom_ordered.
+
+Theorem C07_level_sections_sorted : forall fp size (chs : list (N * list (list zrec))) sds pos,
+  StronglySorted N.lt (map fst chs) ->
+  Forall (fun c => ordered size (fst c) 0 (concat (snd c))) chs ->
+  mapM (encode_zoom_section fp) (flat_map snd chs) = Ok sds ->
+  sorted_starts (map sect_span (place pos sds)).
+Proof. exact level_sections_sorted. Qed.
+Print Assumptions C07_level_sections_sorted.
+
 (* the loop as it was before the repair 9296bc5 violates the property on the design's witnesses *)
 Theorem C07_gap_refuted_before_fix :
   exists R, achrom_old false true ieee 10 0
@@ -178,6 +236,8 @@ Proof.
   - repeat (constructor; cbn; try lia).
   - eexists. split; [vm_compute; reflexivity|]. split; vm_compute; reflexivity.
 Qed.
+Example C07_example_finite : Forall (fun v => finite (v_val v)) ex_vals.
+Proof. repeat constructor; eexists; eexists; vm_compute; reflexivity. Qed.
 
 (* ... and the sections of that instance meet the hypotheses of C07_zoom_query (fan-out 2, data at
    1000, index at 2000); the reader run on the index bytes returns the one block holding the
@@ -198,4 +258,28 @@ Proof.
   - apply Forall_forall. intros s Hs. vm_compute in Hs.
     repeat (destruct Hs as [<-|Hs]; [vm_compute; repeat split; reflexivity|]). destruct Hs.
   - vm_compute. reflexivity.
+Qed.
+
+(* the file-level hypotheses are met by a concrete two-level file of that instance (both writers) *)
+Definition ex_file_opts : opts :=
+  {| o_compress := false; o_ips := 2; o_bs := 2; o_izoom := 160; o_maxzooms := 10; o_manual := Some [10; 0; 3; 10];
+     o_sort_all := true |}.
+Definition ex_file_inp : list item := map (pair [97]) ex_vals.
+Example C07_file_example_hyps :
+  opts_ok ex_file_opts /\ input_ok [([97], 40)] ex_file_inp
+  /\ Forall (fun z => z < U32) (zoom_sizes_single ex_file_opts) /\ manual_u32 ex_file_opts
+  /\ (exists bs, bw_write ieee ex_file_opts [([97], 40)] ex_file_inp = Ok bs /\ Nlen bs < U64
+                 /\ match read_info bs with Ok i => map zh_res (i_zooms i) = [3; 10] | _ => False end)
+  /\ (exists bs, bw_write_multipass ieee ex_file_opts [([97], 40)] ex_file_inp = Ok bs /\ Nlen bs < U64
+                 /\ match read_info bs with Ok i => map zh_res (i_zooms i) = [3; 10] | _ => False end).
+Proof.
+  split; [unfold opts_ok; cbn; lia|]. split.
+  - unfold input_ok. assert (Hr : runs ex_file_inp = [([97], ex_vals)]) by reflexivity. rewrite Hr. cbn [map fst]. split.
+    + repeat constructor; intros H; repeat (destruct H as [H|H]; try discriminate); assumption.
+    + split; [repeat constructor; try discriminate; reflexivity|]. split; [reflexivity|].
+      split; [repeat constructor|unfold ex_file_inp, ex_vals; cbn [map]; repeat constructor].
+  - assert (E : zoom_sizes_single ex_file_opts = [3; 10]) by (vm_compute; reflexivity).
+    split; [rewrite E; repeat constructor; unfold U32; lia|].
+    split; [unfold manual_u32, ex_file_opts; cbn [o_manual]; repeat constructor; unfold U32; lia|].
+    split; eexists; (split; [vm_compute; reflexivity|split; [reflexivity|vm_compute; reflexivity]]).
 Qed.
